@@ -305,7 +305,11 @@ class ES(Inverter):
             return None
         if OperationMode.ECO != mode:
             return mode
-        eco_mode = await self.read_setting('eco_mode_1')
+        try:
+            eco_mode = await self.read_setting('eco_mode_1')
+        except ValueError:
+            # the first eco mode group does not hold a decodable schedule, so it cannot be an emulated mode
+            return mode
         if eco_mode.is_eco_charge_mode():
             return OperationMode.ECO_CHARGE
         if eco_mode.is_eco_discharge_mode():
